@@ -36,4 +36,7 @@
                  'type (a script is a function of the globals it can see), js_guard / caches_invisible_js '
                  'inherit that; the generators stay inside the guard (scripts are expressions or IIFEs); '
                  'witnesses replays/corpus/C13/f29_a_toplevel_let.json, f29_b_global_var_counter.json '
-                 '(replayed last in the harness process), model witness caches_invisible_refuted_globals']}
+                 '(replayed last in the harness process), model witness caches_invisible_refuted_globals',
+                 'extracted source fact Gen/DeclHash.v (decl_hash_injective): computeDeclHash keys its table '
+                 'by the full declaration encoding AND stores a fresh-unique id (uuid.New or a counter) for '
+                 'a new key - not a digest of the encoding; a change to either breaks the *_src obligations']}
